@@ -153,6 +153,9 @@ func dump(args []string) {
 		glob = fs.Arg(1)
 	}
 	e := interp.New(P)
+	if prof := os.Getenv("VERIF_PROFILE"); prof != "" {
+		rules.ApplyProfile(e, prof)
+	}
 	t1 := time.Now()
 	rr := e.Run(fn)
 	fmt.Printf("interpreted in %.2fs, %d steps, %d events, %d rets\n", time.Since(t1).Seconds(), e.Steps, len(rr.Events), len(rr.Rets))
